@@ -93,6 +93,17 @@ func evalOne(p *Prop, c string) (r Result) {
 	return p.Eval(c)
 }
 
+// slowFactor multiplies every wall-clock bound of the harness (VERIF_SLOW, default 1).  The check
+// re-runs a case that failed on a timing bound (or whose output differed from the model's once) in
+// a fresh process with VERIF_SLOW=5 before it reports it: a real hang or a real difference is
+// still there, a goroutine that was merely late on a busy machine is not.
+func slowFactor() time.Duration {
+	if n, err := strconv.Atoi(os.Getenv("VERIF_SLOW")); err == nil && n >= 1 && n <= 100 {
+		return time.Duration(n)
+	}
+	return 1
+}
+
 func main() {
 	if len(os.Args) < 3 {
 		fmt.Fprintln(os.Stderr, "usage: harness gen|eval|cands PROP [seed tier]")
@@ -125,7 +136,7 @@ func main() {
 			for {
 				time.Sleep(500 * time.Millisecond)
 				st := curStart.Load()
-				if st != 0 && time.Now().UnixNano()-st > int64(60*time.Second) {
+				if st != 0 && time.Now().UnixNano()-st > int64(60*time.Second*min(slowFactor(), 2)) {
 					out.Flush()
 					fmt.Fprintf(os.Stdout, "HANG\t%s\thang\n", fail("hang", "case %d did not return in 60s", curCase.Load()))
 					os.Exit(3)
